@@ -224,6 +224,16 @@ def run(ctx):
                     problems, loc = convprop.stack_on(sctx, "C06", tmp / "py", mf)
                 except Broken as e:
                     problems, loc = [f"tables of the evolved package do not build: {e}"], []
+                # C17 on the evolved metamodel beyond the oracle: the Lean model of the generation algorithm equals generate() on it, and the
+                # label-soundness / has-a-True-vector theorems are instantiated for it (modelOK kernel-evaluated)
+                try:
+                    import props.c17 as c17
+                    p17 = []
+                    c17.generator_model(sctx, f"R{k}", mf, f"evolved metamodel [{tag}]", p17)
+                    problems = list(problems) + p17
+                    ctx.extra.setdefault("generator_model_correspondence", {}).update(sctx.extra.get("generator_model_correspondence", {}))
+                except Broken as e:
+                    problems = list(problems) + [f"testdata generator model on the evolved metamodel: {e}"]
                 stack_results.append((tag, desc, problems, loc, sctx))
             finally:
                 shutil.rmtree(tmp, ignore_errors=True)
